@@ -5,10 +5,22 @@ From stdpp Require Import gmap sets.
 From NV Require Import C20_Model TA_Model TA_Proofs TA_Capacity TA_Cap2 TA_Nonempty.
 Open Scope Z_scope.
 
-(* Capacity (proved part): for every tree passing tree_wfb2, every history and every choice such
-   that each exclusive allocation leaves the strict descendants of its pool enough shared CPUs
-   (guard desc_safeb, which the code does not check: known finding K2), the shared capacity
-   granted in every pool's subtree never exceeds 1000 mCPU per CPU left in its shared set. *)
+(* Capacity: for every tree passing tree_wfb2, every history WITHOUT reinstatement (allocate / release / failed
+   allocation / reset, any choice of pool and CPUs the model's transcription of the code accepts) keeps, in every
+   pool, the shared capacity granted in its subtree within 1000 mCPU per CPU left in its shared set.  No guard:
+   since the repair of K2 the allocation itself refuses a slice that would leave a pool below short. *)
+Theorem C03_capacity_without_reinstatement : forall t os s, tree_wfb2 t = true -> forallb no_reserve os = true ->
+  run t (init t) os = Ok s ->
+  forall q, (q < length t)%nat -> granted_sub t (gr_shared s) q <= 1000 * csize (free_shar s q).
+Proof.
+  intros t os s Hwf Hnr Hrun.
+  pose proof (run_no_reserve_guarded t os (init t) s (tree_wfb2_sound t Hwf) (J_init t) Hnr Hrun) as Hg.
+  destruct (reachable_cap t os (init t) s (tree_wfb2_sound t Hwf) (J_init t) Hg) as (_ & HC & _). exact HC.
+Qed.
+Print Assumptions C03_capacity_without_reinstatement.
+
+(* With reinstatement (supply.Reserve: restart, configuration update) the statement holds for histories in which
+   every reinstated grant passes the guard desc_safeb, which Reserve does not check. *)
 Theorem C03_capacity_partial : forall t os s, tree_wfb2 t = true -> run_g t (init t) os = Ok s ->
   forall q, (q < length t)%nat -> granted_sub t (gr_shared s) q <= 1000 * csize (free_shar s q).
 Proof.
@@ -17,17 +29,25 @@ Proof.
 Qed.
 Print Assumptions C03_capacity_partial.
 
-(* ... and the full-strength statement (without the guard) is false of the faithful model:
-   slicing at an inner pool empties a child's shared set below what is granted there, and the
-   child's container is left with an empty cpuset.  The same history fails on the implementation. *)
+(* ... and the full-strength statement (Reserve without the guard) is false of the faithful model: reinstating a
+   slicing grant at an inner pool after a shared grant in a child empties the child's shared set below what is
+   granted there, and the child's container is left with an empty cpuset. *)
 Theorem C03_capacity_refuted :
   tree_wfb2 k2_tree = true /\
-  match run k2_tree (init k2_tree) k2_ops with
+  match run k2_tree (init k2_tree) k2r_ops with
   | Ok s => (granted_sub k2_tree (gr_shared s) 0 >? 1000 * csize (free_shar s 0)) = true /\
             bool_decide (told_cpus k2_tree s {| g_pool := 0; g_excl := ∅; g_type := CpuNormal; g_portion := 2500 |} = ∅) = true
   | Err _ => False end.
 Proof. exact capacity_refuted. Qed.
 Print Assumptions C03_capacity_refuted.
+
+(* the history that used to oversubscribe a pool by ALLOCATION (known finding K2 before its repair) is refused by
+   the model as it is by the code, and goes through with CPUs the other pool can spare *)
+Theorem C03_k2_allocation_refused :
+  run k2_tree (init k2_tree) k2_ops = Err (ErrGuard 12) /\
+  match run k2_tree (init k2_tree) k2_ops_ok with Ok _ => True | Err _ => False end.
+Proof. split; [exact k2_choice_refused|exact k2_other_choice_accepted]. Qed.
+Print Assumptions C03_k2_allocation_refused.
 
 (* "... so every CPU-pinned container always has a non-empty allowed CPU set" (proved part): on the same
    guarded histories, a container of the normal CPU class that holds exclusive CPUs or a positive
